@@ -19,17 +19,19 @@ RULE = (
     "part of the contig, and with a partially pre-phased input under --use-prephasing) and, for hapcut2vcf / find_snv_candidates, on the "
     "repository's tests/data. Sweeps per input: PYTHONHASHSEED in {0,1,2,3,random,random}, plus polyphase --threads {1,2,3} with "
     "seeded random delays injected into phase_single_block_mt, haplotag --output-threads {1,2,4}, and one repetition that writes to "
-    "paths at which the outputs of the first run already exist. Oracle: "
+    "paths at which the outputs of the first run already exist; `learn` (native state in src/caller.cpp) additionally with the heap "
+    "contents varied (MALLOC_PERTURB_ 85/170/255) and once under valgrind memcheck, where a repository frame that uses uninitialised "
+    "memory is itself a violation (the result is then a function of heap garbage). Oracle: "
     "all output files of all runs of one input must be identical after dropping the recorded command line (##commandline, @PG CL) "
     "— VCF/TSV text, gz decompressed, BAM records via pysam. Evidence of reach: distinct iteration orders of a probe set of the "
     "sample names and distinct polyphase block completion orders are counted. Non-trivial: an input whose runs saw >=2 distinct "
     "probe-set orders (or block completion orders) and produced non-empty output; distinct by subcommand + input hash."
 )
 REQUIRED_COUNTERS = ["subprocess_runs", "inputs_compared", "distinct_probe_orders_seen", "outputs_compared"]
-ASSUMPTIONS = ["hash seeds and schedules are sampled, not enumerated", "polyphasegenetic and learn are not driven: the repository ships no end-to-end input for them (tests/data only feeds unit tests)"]
+ASSUMPTIONS = ["hash seeds and schedules are sampled, not enumerated", "polyphasegenetic is not driven: the repository ships no input on which it runs end to end (it aborts with `assert clustering` on tests/data)", "learn: single-contig inputs only"]
 WATCHDOG = {"quick": 900, "thorough": 2400}
 KINDS = ["phase", "phase_ped", "phase_quartet", "genotype", "haplotag", "polyphase", "compare", "stats", "unphase", "split",
-         "haplotagphase", "hapcut2vcf", "find_snv", "polyphase_allhet", "polyphase_prephased", "haplotag_ignore_rg"]
+         "haplotagphase", "hapcut2vcf", "find_snv", "polyphase_allhet", "polyphase_prephased", "haplotag_ignore_rg", "learn", "learn_repo"]
 
 
 def lanes(tier):
@@ -58,7 +60,15 @@ def run_cmd(args, env_extra, probe_out, timeout=600):
     env = dict(os.environ)
     env.update(env_extra)
     env["WV_PROBE_OUT"] = probe_out
-    p = subprocess.run([sys.executable, "-m", "wv.subrun"] + args, env=env, stdout=subprocess.PIPE, stderr=subprocess.PIPE, timeout=timeout)
+    pre = []
+    vglog = env.pop("WV_VGLOG", None)
+    if vglog:
+        # memcheck over the same process: a native frame of the repository that branches on / uses uninitialised memory means the
+        # result is a function of heap garbage, not of the input
+        pre = ["valgrind", "-q", "--error-limit=no", "--leak-check=no", "--num-callers=30", "--fullpath-after=", "--log-file=" + vglog]
+        env["PYTHONMALLOC"] = "malloc"
+        timeout *= 6
+    p = subprocess.run(pre + [sys.executable, "-m", "wv.subrun"] + args, env=env, stdout=subprocess.PIPE, stderr=subprocess.PIPE, timeout=timeout)
     return p.returncode, p.stdout, p.stderr.decode(errors="replace")[-1500:]
 
 
@@ -224,6 +234,30 @@ def build_input(kind, rng, tmp):
             return ["find_snv_candidates", "--pacbio", "-o", out, os.path.join(repo, "tests/data/pacbio/reference.fasta"), os.path.join(repo, "tests/data/pacbio/pacbio.bam")], [out]
 
         return make, ["a", "b", "c", "d"], variants
+    if kind in ("learn", "learn_repo"):
+        # `learn` keeps its state in native code (src/caller.cpp). Besides hash seeds, the heap contents are varied: glibc's
+        # MALLOC_PERTURB_ fills fresh and freed blocks with a byte pattern, and one run is made under valgrind memcheck.
+        variants = variants[:3] + [("perturb%d" % b, {"PYTHONHASHSEED": "0", "PYTHONMALLOC": "malloc", "MALLOC_PERTURB_": str(b)}, []) for b in (85, 170, 255)]
+        variants.append(("vg", {"PYTHONHASHSEED": "0", "WV_VGLOG": os.path.join(tmp, "vg.log")}, []))
+        if kind == "learn_repo":
+            d = os.path.join(repo, "tests/data/short-genome/learn-data")
+            fasta, bam, vcf = (os.path.join(d, n) for n in ("short_ref.fasta", "short-reads.bam", "variant.vcf"))
+        else:
+            nv = rng.choice([0, 1, 1, 2, 3, 5])
+            p = {"n_chrom": 1, "chrom_len": rng.choice([600, 1200]), "n_var": max(nv, 1), "kinds": ["snv"], "samples": ["zeta"], "depth": rng.choice([3, 6]),
+                 "read_len": (80, 300), "error_rate": 0.03, "het_prob": 1.0}
+            sim = genome.simulate(rng, tmp, p)
+            if nv == 0:
+                sim.doc.records = []
+                sim.doc.write(sim.vcf)
+            fasta, bam, vcf = sim.fasta, sim.bams[0], sim.vcf
+        kk, ww = rng.choice([(7, 25), (5, 10), (9, 25), (7, 0)])
+
+        def make(outdir):
+            out = os.path.join(outdir, "out.txt")
+            return ["learn", "--reference", fasta, "-k", str(kk), "--window", str(ww), "-o", out, bam, vcf], [out]
+
+        return make, ["a", "b", "c", "d"], variants
     if kind == "polyphasegenetic":
         def make(outdir):
             out = os.path.join(outdir, "out.vcf")
@@ -265,6 +299,22 @@ def run_case(idx, rng, tier, lane):
             env["WV_PROBE"] = ",".join(probe_names)
             rc, stdout, err = run_cmd(args[:1] + extra + args[1:], env, probe_out)
             counters["subprocess_runs"] = counters.get("subprocess_runs", 0) + 1
+            vglog = env.get("WV_VGLOG")
+            if vglog:
+                from wv import sanlog
+
+                counters["valgrind_runs"] = counters.get("valgrind_runs", 0) + 1
+                text = open(vglog).read() if os.path.exists(vglog) else ""
+                reps = sanlog.parse_valgrind(text)
+                counters["vg_thirdparty_reports"] = counters.get("vg_thirdparty_reports", 0) + sum(1 for r in reps if not r["repo"])
+                mine = [r for r in reps if r["repo"]]
+                counters["vg_repo_reports"] = counters.get("vg_repo_reports", 0) + len(mine)
+                seen_k = set()
+                for r in mine:
+                    k = "uninitialised-memory-decides-result:%s:%s:%s" % (kind.split("_")[0], r["kind"], r["frame"])
+                    if k not in seen_k:
+                        seen_k.add(k)
+                        viol.append({"mech": k, "msg": "%s under valgrind memcheck: %s" % (kind, r["text"][:1500])})
             if rc != 0:
                 viol.append({"mech": "nonzero-exit:" + kind, "msg": "%s exited %d under %s: %s" % (" ".join(args[:3]), rc, label, err[-600:])})
                 break
@@ -278,7 +328,7 @@ def run_case(idx, rng, tier, lane):
                 else:
                     contents[name] = norm_text(o)
             results[label] = contents
-        if results and not viol:
+        if results and not any(v["mech"].startswith("nonzero-exit") for v in viol):
             labels = list(results)
             base = results[labels[0]]
             counters["inputs_compared"] = counters.get("inputs_compared", 0) + 1
